@@ -436,7 +436,7 @@ def evaluate(impl, drv, acc, stream, argv, argv0=UNKNOWN_ARGV0, rng=None, reply=
             f = got_full["ok"]
             acc.full_ok += 1
             # (1d) reference reading of the leftovers (Spec/Unrecognised.lean; statement C11Full.ExtrasAreExactlyUnrecognised,
-            # tested here, not proved): on a tame line the real extras / file are the unrecognised arguments / operands
+            # tested here and proved (C11Extras.extras_are_exactly_unrecognised)): on a tame line the real extras / file are the unrecognised arguments / operands
             if tame and "leftover" in reply:
                 acc.dist["leftover-oracle (tame, parsed)"] += 1
                 if reply["leftover"] != {"file": f["file"], "extras": f["extras"]}:
